@@ -310,6 +310,8 @@ func (m *RuleManager) tryCommitPatch(patch *ruleConfigPatch) error {
 
 	ruleList, err := buildRuleList(patch)
 	if err != nil {
+		// patch.adjust() re-pointed the served rules to the groups of the rejected patch.
+		m.ruleConfig.adjust()
 		return err
 	}
 
@@ -318,6 +320,7 @@ func (m *RuleManager) tryCommitPatch(patch *ruleConfigPatch) error {
 	// save updates
 	err = m.savePatch(patch.mut)
 	if err != nil {
+		m.ruleConfig.adjust()
 		return err
 	}
 
